@@ -99,6 +99,10 @@ pub fn parse_limit(sql: &str) -> Option<u64> {
     let up = sql.to_uppercase();
     let i = up.rfind(" LIMIT ")?;
     // (the word inside a quoted identifier or string is no clause: `FROM t0" LIMIT 2"OFFSET 0`)
+    // ... nor is the word inside a comment (`oHERE --632 LIKE '_' LIMIT 5`, a mutated string)
+    if up[..i].contains("--") || up[..i].contains("/*") {
+        return None;
+    }
     if up[..i].matches('"').count() % 2 == 1 || up[..i].matches('\'').count() % 2 == 1 || up[..i].matches('`').count() % 2 == 1 {
         return None;
     }
